@@ -106,7 +106,7 @@ class ParamLengthInfoType(DiagCodedType):
             odxraise(f"Unspecified mandatory length key parameter "
                      f"{self.length_key.short_name}")
             decode_state.cursor_bit_position = 0
-            return cast(None, AtomicOdxType)
+            return cast(AtomicOdxType, None)
 
         bit_length = decode_state.length_keys[self.length_key.short_name]
         if not isinstance(bit_length, int):
